@@ -9,21 +9,22 @@ import (
 )
 
 type RunReport struct {
-	Sc         *Scenario
-	V          []Violation
-	Count      Counters
-	Shapes     map[string]bool
-	States     map[string]bool
-	Cmds       int
-	Effects    int
-	Faults     int
-	SimNs      int64
-	Digest     string
-	Ilv        string
-	NonTrivial bool
-	Harness    string // non-empty: harness trouble (exit 2)
-	Execs      int    // executions (scenario runs incl. sweep members)
-	Extra      map[string]int
+	Sc          *Scenario
+	V           []Violation
+	Count       Counters
+	Shapes      map[string]bool
+	States      map[string]bool
+	Cmds        int
+	Effects     int
+	Faults      int
+	SimNs       int64
+	Digest      string
+	Ilv         string
+	NonTrivial  bool
+	Harness     string // non-empty: harness trouble (exit 2)
+	Execs       int    // executions (scenario runs incl. sweep members)
+	Extra       map[string]int
+	PerViolScen [][]Step // when set: V[i] is demonstrated by Sc with Steps = PerViolScen[i]
 }
 
 // seqProfile tunes the generator for a property.
@@ -218,6 +219,12 @@ func seqMode(prop string, quick, deep int) Mode {
 func planFor(prop string) *PropPlan {
 	p := &PropPlan{ID: prop, Level: "exploration", Assume: commonAssume}
 	switch prop {
+	case "C03", "C04":
+		p.Level = "fault_enumeration"
+		p.Modes = []Mode{{Name: "crash", Quick: 60, Deep: 1500,
+			Run:    func(bin string, seed uint64) *RunReport { return runCrashSweep(bin, prop, seed, false) },
+			Replay: ReplayCrash}}
+		p.Rule = "per sample: a seeded pre-state (sequential history) and one mutating command; the command's clean run yields its K visible system calls; EVERY boundary k in 0..K is a kill point, plus kill before the reply, plus torn writes at offsets {1,2,mid,len-2,len-1}+4 seeded offsets per log write (thorough: every offset for lines up to 512 B) and (C03) ENOSPC/EIO/EINTR returns on the fallible calls; evaluations = sweep members executed; a sample is non-trivial when at least one fault fired; distinct = distinct trace digests of samples"
 	case "C06", "C07", "C08", "C09", "C10", "C11", "C14", "C15", "C16", "C17", "C20":
 		p.Modes = []Mode{seqMode(prop, 400, 12000)}
 		p.Rule = "seeded sequential command histories (adaptive generator biased per property, all input modes, clock profile and short-I/O faults drawn per run) executed by real ergo processes under the simulator and judged step by step against the reference model, plus cross-invariants on every observation; a run is non-trivial when at least one mutation took effect; distinct = distinct trace digests of non-trivial runs"
